@@ -3,7 +3,7 @@
 use alloc::collections::VecDeque;
 use alloc::sync::Arc;
 use alloc::vec::Vec;
-use core::str::{FromStr, Utf8Error};
+use core::str::FromStr;
 
 use bytes::Bytes;
 use moka::future::Cache;
@@ -990,11 +990,9 @@ pub async fn cached_nsec3_hash(
 }
 
 /// Convert a label to an NSEC3 hash value.
-pub fn nsec3_label_to_hash(
-    label: &Label,
-) -> Result<OwnerHash<Vec<u8>>, Utf8Error> {
-    let label_str = core::str::from_utf8(label.as_ref())?;
-    Ok(OwnerHash::<Vec<u8>>::from_str(label_str).expect("should not fail"))
+pub fn nsec3_label_to_hash(label: &Label) -> Option<OwnerHash<Vec<u8>>> {
+    let label_str = core::str::from_utf8(label.as_ref()).ok()?;
+    OwnerHash::<Vec<u8>>::from_str(label_str).ok()
 }
 
 /// Is targethash in the range between ownerhash and nexthash?
@@ -1083,8 +1081,8 @@ fn get_checked_nsec3(
 
     // Convert first label to hash. Skip this NSEC3 record if that fails.
     let ownerhash = match nsec3_label_to_hash(group.owner().first()) {
-        Ok(hash) => hash,
-        Err(_) => {
+        Some(hash) => hash,
+        None => {
             return Err((
                 ValidationState::Bogus,
                 make_ede(
